@@ -150,6 +150,8 @@ def source_of(e, use, binds, fn, assigns):
                     if s is not None:
                         s.selection = sel
                         s.guard = tuple(guard_of(use, fn))
+                        if sel:
+                            s.scope = b[0]     # the whole selecting expression: what is selected from, and how many
                         return s
             if isinstance(inner, ast.Call) and self_attr(inner.func) == "edits":
                 return Source("=edits()", "", e, guard_of(use, fn))
